@@ -31,6 +31,11 @@ TEXTS = {
   "ref": "DESIGN.md 4 C07", "technique": TLA,
   "note": "latest-block-filter-hash quorum (the analogue above the last check point) is specified in FilterSync.tla (LatestQuorum) and exercised under C06",
  },
+ "C10": {
+  "level": "Hostile.tla states the outcome alphabet of message handling: every delivery on the light-client, filter, sync or relay protocol and every tick is one step that returns (accept / ignore / ban / disconnect) with the stored tip safe (never lighter; a world block under real PoW), and the process has exactly one abort action, LongForkAbort, enabled only by a SendLastStateProof for a request carrying the long-fork flag.  On the real client a fine-grained honest history is stopped at a random point (peers without state, announced, requested, proved, with and without pending proof / filter / block / fetch requests) and hundreds of byte strings per scenario are delivered: random bytes, and honest messages (live answers to the outstanding requests, earlier traffic, fresh announcements, the client's own requests echoed, relay messages) truncated at every kind of position, extended, with rewritten union tag / size / offset words, with 1-32 byte windows set to 0 / 1 / 2^32-1 / 2^64-1 / 2^256-1 / sign-bit patterns, and with re-sealed verifiable headers (number, epoch incl. zero length and index >= length, compact target, timestamp, total difficulty, chain-root numbers at boundary values, extension and extra hash recomputed so that the chain-root check passes), interleaved with all ticks, connects, disconnects and honest steps so that accepted garbage is carried into request building and the next proofs.  A panic (catch_unwind, overflow checks on) is logged as a Panic record, which is a step of the specification only as LongForkAbort.",
+  "ref": "DESIGN.md 4 C10", "technique": TLA,
+  "note": "sampling of an infinite input space; nine panics found this way were repaired (KNOWN_FINDINGS.json fixed entries)",
+ },
  "C09": {
   "level": FS + "SetScripts is specified for all / partial / delete incl. empty lists, duplicates and the rewind rule; random command sequences are issued at every point of an ongoing sync (before/after filter batches, matched blocks pending or partly downloaded, restarts); every post-state must equal the specified script set / filtered number / cleared records, and ScriptsNumberHonest (history variable startOf) is evaluated on every state: no script is ever reported filtered beyond a canonical block that creates one of its cells and is not indexed.",
   "ref": "DESIGN.md 4 C09", "technique": TLA,
